@@ -609,8 +609,12 @@ def run_all(only=None):
             res[name] = None
         except (TranslateError, OSError, ValueError, KeyError, IndexError) as e:
             res[name] = '%s: %s' % (type(e).__name__, e)
-            # leave a file that does not compile, so that dependent obligations are reported as broken
-            write_if_changed(name, '(* translator failed: %s *)\nTranslator_failed.\n' % str(e).replace('*)', '* )'))
+            # the source can no longer be translated.  The last translatable version of the file stays in place, so
+            # that the stale model can still be run against the code in the search for a failing input; the caller
+            # (checklib) reports every obligation that depends on this file as broken.  Only when there is no earlier
+            # version, leave a file that does not compile.
+            if not os.path.exists(os.path.join(COQ, name)) or 'Translator_failed.' in open(os.path.join(COQ, name)).read():
+                write_if_changed(name, '(* translator failed: %s *)\nTranslator_failed.\n' % str(e).replace('*)', '* )'))
     return res
 
 
